@@ -1,4 +1,5 @@
 import ColoVerif.Proofs.TranspSsp2Solve
+import ColoVerif.Properties.C13
 import ColoVerif.Proofs.CheckedTranspTree
 import ColoVerif.Model.TranspRunChecked
 /-
@@ -168,5 +169,549 @@ lemma sendLoopC_total (p : Problem) (s : St) (d : Nat → Int) (m : Int) (hm : 0
           obtain ⟨e1, e2⟩ := hrows y k' (by omega) hdy'
           exact ⟨(hra y hney).trans e1, (hrq y hney).trans e2⟩
       · exact absurd h1 (by simp)
+
+
+/-! ### the tail of `sendSource(src, sink, quantity)` -/
+
+/-- largest stored cost allowed by `3·cost < INT_MAX` -/
+def Cmax : Int := 715827882
+
+lemma cost_le_Cmax {p : Problem} (hcb : CostBound p) (i j : Nat) (hi : i < p.nbSinks) (hj : j < p.nbSources) :
+    p.cost i j ≤ Cmax := by
+  have := (hcb i j hi hj).1
+  have im : intMax = 2147483647 := rfl
+  unfold Cmax
+  omega
+
+lemma initQueuesC_ok (p : Problem) (alloc : Mat) (sink : Nat) (hs : sink < p.nbSinks)
+    (hcost : ∀ i j, i < p.nbSinks → j < p.nbSources → 0 ≤ p.cost i j ∧ p.cost i j ≤ intMax) :
+    initQueuesC p alloc sink = .ok (initQueues p alloc sink) := by
+  unfold initQueuesC
+  rw [if_pos]
+  rw [List.all_eq_true]
+  intro src hsrc
+  have hs' : src < p.nbSources := by
+    have := (List.mem_filter.mp hsrc).1
+    simpa using this
+  exact destCostsFit_of p sink src (fun i hi => hcost i src hi hs') hs
+
+lemma finishSendC_total (p : Problem) (s : St) (queues : Queues) (root : Nat) (nu : Bool) (alloc' : Mat)
+    (rem' : List Int) (m : Int) (qs' : Queues) (d : Nat → Int)
+    (hq : qs' = if rem'.getD root 0 == 0 then queues.setIfInBounds root (initQueues p alloc' root) else queues)
+    (hmid : Mid p alloc' qs' rem') (hpot : Pot p alloc' rem' d) (hdle : ∀ i, i < p.nbSinks → d i ≤ Wmax)
+    (hcb : CostBound p) (hcap : ∀ i, i < p.nbSinks → 0 < p.capacity i)
+    (hlazy : nu = false → ¬ rem'.getD root 0 = 0 → (∃ f, f < p.nbSinks ∧ rem'.getD f 0 > 0) →
+      TreeOK p alloc' queues rem' s.sendCost s.parent)
+    (hroot : root < p.nbSinks) (hnn : ∀ i j, i < p.nbSinks → j < p.nbSources → 0 ≤ p.cost i j) :
+    ∃ s', finishSend p s queues root nu alloc' rem' m = .ok (s', m) ∧
+      finishSendC p s queues root nu alloc' rem' m = .ok (s', m) ∧
+      s'.alloc = alloc' ∧ s'.queues = qs' ∧ s'.remCapa = rem' ∧
+      ((∃ f, f < p.nbSinks ∧ rem'.getD f 0 > 0) → TreeOK p alloc' qs' rem' s'.sendCost s'.parent) := by
+  have im : intMax = 2147483647 := rfl
+  have hcost : ∀ i j, i < p.nbSinks → j < p.nbSources → 0 ≤ p.cost i j ∧ p.cost i j ≤ Cmax :=
+    fun i j hi hj => ⟨hnn i j hi hj, cost_le_Cmax hcb i j hi hj⟩
+  have hcost' : ∀ i j, i < p.nbSinks → j < p.nbSources → 0 ≤ p.cost i j ∧ p.cost i j ≤ intMax := by
+    intro i j hi hj
+    have := hcost i j hi hj
+    unfold Cmax at this
+    omega
+  obtain ⟨s', hfin, e1, e2, e3, htree⟩ :=
+    finishSend_total p s queues root nu alloc' rem' m qs' d hq hmid hpot hdle hcb hcap hlazy
+  refine ⟨s', hfin, ?_, e1, e2, e3, htree⟩
+  unfold finishSend at hfin
+  simp only [] at hfin
+  rw [← hq] at hfin
+  unfold finishSendC
+  rw [initQueuesC_ok p alloc' root hroot hcost']
+  have hqs : (if (rem'.getD root 0 == 0) = true then
+        (Except.ok (queues.setIfInBounds root (initQueues p alloc' root)) : Except Fault Queues)
+      else .ok queues) = .ok qs' := by
+    rw [hq]; split <;> rfl
+  simp only [hqs]
+  by_cases hc : (nu || rem'.getD root 0 == 0) = true
+  · rw [if_pos hc] at hfin ⊢
+    obtain ⟨t, hC, hU, _⟩ := updateTreeC_at_mid p alloc' qs' rem' d hmid hpot
+      (fun i hi => by have := hdle i hi; unfold Wmax at this; omega) Cmax hcost (by unfold Cmax; omega)
+      (by unfold Cmax; omega) hcap
+    rw [hU] at hfin
+    rw [hC]
+    simp only [] at hfin ⊢
+    rw [Except.ok.inj hfin]
+  · rw [if_neg hc] at hfin ⊢
+    rw [Except.ok.inj hfin]
+
+/-- **one call `sendSource(src, bestSink(src), quantity)`, checked** -/
+lemma sendSource3C_total (p : Problem) (hcb : CostBound p) (hcap : ∀ i, i < p.nbSinks → 0 < p.capacity i)
+    (hnn : ∀ i j, i < p.nbSinks → j < p.nbSources → 0 ≤ p.cost i j)
+    (hcapQ : ∀ i, i < p.nbSinks → p.capacity i ≤ Qmax)
+    (s : St) (sent : Nat → Int) (src : Nat) (q : Int) (hg : Good p s sent) (hsrc : src < p.nbSources)
+    (hq : 0 < q) (hqQ : q ≤ Qmax) (hfree : ∃ f, f < p.nbSinks ∧ s.remCapa.getD f 0 > 0) :
+    ∃ s' m, sendSource3 p s src (bestSink p s.sendCost src) q = .ok (s', m) ∧
+      sendSource3C p s src (bestSink p s.sendCost src) q = .ok (s', m) ∧
+      Good p s' (fun j => sent j + (if j = src then m else 0)) ∧ 0 < m ∧ m ≤ q ∧
+      sumTo p.nbSinks (fun i => s'.remCapa.getD i 0) = sumTo p.nbSinks (fun i => s.remCapa.getD i 0) - m := by
+  have hQ : Qmax = 2305843009213693952 := rfl
+  have im : intMax = 2147483647 := rfl
+  have hcost' : ∀ i j, i < p.nbSinks → j < p.nbSources → 0 ≤ p.cost i j ∧ p.cost i j ≤ intMax := by
+    intro i j hi hj
+    have := cost_le_Cmax hcb i j hi hj
+    have := hnn i j hi hj
+    unfold Cmax at *
+    omega
+  have hRow : ∀ i, i < p.nbSinks → rowSum s.alloc p.nbSources i ≤ Qmax := by
+    intro i hi
+    have := hg.mid.row i
+    have := hg.mid.rnn i
+    have := hcapQ i hi
+    omega
+  have tr := hg.tree hfree
+  have hn : 0 < p.nbSinks := by obtain ⟨f, hf, _⟩ := hfree; omega
+  obtain ⟨hsink, hP2⟩ := bestSink_spec p s.sendCost src hn
+    (fun i hi => hcb.sum i src hi hsrc _ (tr.le i hi))
+  have hcapfull := hg.mid.rowpos hcap
+  obtain ⟨k, hk, hdep⟩ := tr.depth _ hsink
+  have hedgeM : ∀ i k, i < p.nbSinks → s.parent.getD i none = some k →
+      k < p.nbSinks ∧ 0 < (qget s.queues i k).size ∧ 0 < get2 s.alloc i (hget (qget s.queues i k) 0).elt := by
+    intro i k hi hpar
+    obtain ⟨hf, hk, hne, _⟩ := tr.edge i k hi hpar
+    exact ⟨hk, hg.mid.qnonempty hcap i k hi hk hne hf, (hg.mid.top hcap i k hi hk hne hf).2.2⟩
+  obtain ⟨ms, root, hms, hmspos, hrootn, hrootpar⟩ :=
+    maxSentLoop_total s.alloc s.queues s.parent p.nbSinks hedgeM k (p.nbSinks + 1) _ q hdep (by omega) hsink hq
+  have hrootfree := tr.root root hrootn hrootpar
+  have hm : min ms (s.remCapa.getD root 0) > 0 := by
+    show 0 < min ms (s.remCapa.getD root 0)
+    rw [lt_min_iff]; exact ⟨hmspos, hrootfree⟩
+  have hmsq := maxSentLoop_le _ _ _ _ _ _ _ _ hms
+  have hmQ : min ms (s.remCapa.getD root 0) ≤ Qmax := by
+    have := min_le_left ms (s.remCapa.getD root 0)
+    omega
+  have hw0 : WInv p s (fun i => s.sendCost.getD i 0) s.alloc s.queues false :=
+    ⟨hg.mid.shape.rows, hg.mid.shape.qsize, hg.mid.nn, hg.mid.qrow, tr.pot.red, fun _ => rfl,
+      fun i k hi hpar _ => (tr.edge i k hi hpar).2.2.2⟩
+  obtain ⟨w, hwok, hwokC, hw, hwroot, hwsrc, hwrootn, hP2f⟩ :=
+    sendLoopC_total p s (fun i => s.sendCost.getD i 0) _ hm hcapfull tr.edge hcost' hRow hmQ (p.nbSinks + 1) k _ q ms root
+      s.alloc s.queues src false hms (min_le_left _ _) hdep hsink hsrc (fun _ _ _ _ => ⟨rfl, rfl⟩) hw0
+      (fun k' hk' => hP2 k' hk')
+  have hl : w.src < (w.alloc.getD w.root []).length := by rw [hw.rows w.root hwrootn]; exact hwsrc
+  have hrl : w.root < s.remCapa.length := by rw [hg.mid.shape.rlen]; exact hwrootn
+  have hmle : min ms (s.remCapa.getD root 0) ≤ s.remCapa.getD w.root 0 := by rw [hwroot]; exact min_le_right _ _
+  obtain ⟨hmid', hpot'⟩ := mid_after p s (fun i => s.sendCost.getD i 0) w (min ms (s.remCapa.getD root 0))
+    _ _ _ rfl rfl rfl hg.mid tr.pot hw hwrootn hwsrc hm hmle hP2f
+  obtain ⟨s', hfin, hfinC, e1, e2, e3, htree'⟩ := finishSendC_total p s w.queues w.root w.needUpdate _ _
+    (min ms (s.remCapa.getD root 0)) _ (fun i => s.sendCost.getD i 0) rfl hmid' hpot' tr.le hcb hcap
+    (by
+      intro hnu hnz hfree'
+      refine ⟨hpot', tr.le, fun i hi hpar => ?_, fun i k hi hpar => ?_, tr.depth⟩
+      · have h0 := tr.root i hi hpar
+        rw [getD_set_int]
+        by_cases e : i = w.root
+        · subst e
+          rw [getD_set_int] at hnz
+          simp only [true_and, hrl, if_true] at hnz ⊢
+          omega
+        · simp only [e, false_and, if_false]; exact h0
+      · obtain ⟨hf, hk, hne, _⟩ := tr.edge i k hi hpar
+        have e : i ≠ w.root := by
+          intro e; rw [e, hwroot] at hf; omega
+        refine ⟨?_, hk, hne, hw.tight i k hi hpar hnu⟩
+        rw [getD_set_int]
+        simp only [e, false_and, if_false]; exact hf) hwrootn hnn
+  have hok : sendSource3 p s src (bestSink p s.sendCost src) q
+      = .ok (s', min ms (s.remCapa.getD root 0)) := by
+    simp only [sendSource3, hms, hm, if_true, hwok,
+      add2?_ok p.nbSinks p.nbSources w.alloc w.root w.src _ hwrootn hwsrc hl, hrl]
+    exact hfin
+  -- the typed intermediates of the root update
+  have hfit1 : fitsInt64 (get2 w.alloc w.root w.src + min ms (s.remCapa.getD root 0)) := by
+    have b1 := get2_le_rowSum w.alloc p.nbSources w.root w.src (hw.nn w.root) hwsrc
+    have := hw.rsum w.root
+    have := hRow w.root hwrootn
+    have := hw.nn w.root w.src
+    unfold fitsInt64; omega
+  have hfit2 : fitsInt64 (s.remCapa.getD w.root 0 - min ms (s.remCapa.getD root 0)) := by
+    have := hg.mid.row w.root
+    have := hg.mid.rnn w.root
+    have := hcapQ w.root hwrootn
+    have b1 := (le_sumTo (fun j => get2 s.alloc w.root j) p.nbSources 0 (fun k _ => hg.mid.nn w.root k))
+    have hrs : 0 ≤ rowSum s.alloc p.nbSources w.root := by
+      by_cases h0 : p.nbSources = 0
+      · unfold rowSum; rw [h0]; simp [sumTo]
+      · exact (b1 (by omega)).2
+    unfold fitsInt64; omega
+  have hokC : sendSource3C p s src (bestSink p s.sendCost src) q
+      = .ok (s', min ms (s.remCapa.getD root 0)) := by
+    simp only [sendSource3C, hms, hm, if_true, hwokC, addI64, subI64, chk64_ok hfit1, chk64_ok hfit2,
+      add2?_ok p.nbSinks p.nbSources w.alloc w.root w.src _ hwrootn hwsrc hl, hrl]
+    exact hfinC
+  obtain ⟨hinv', hm0, hmq⟩ := sendSource3_inv p s sent src _ q s' _ hg.inv hok
+  refine ⟨s', _, hok, hokC, ⟨?_, hinv'.col, ?_, ?_⟩, hm0, hmq, ?_⟩
+  · rw [e1, e2, e3]; exact hmid'
+  · rw [e1, e3]; exact ⟨_, hpot'⟩
+  · rw [e1, e2, e3]; exact htree'
+  · rw [e3, sumTo_set _ _ _ _ hwrootn hrl]; omega
+
+
+/-! ### the loops over one source and over all sources -/
+
+lemma bestSinkC_good (p : Problem) (hcb : CostBound p)
+    (hnn : ∀ i j, i < p.nbSinks → j < p.nbSources → 0 ≤ p.cost i j)
+    (s : St) (sent : Nat → Int) (hg : Good p s sent) (src : Nat) (hsrc : src < p.nbSources)
+    (hfree : ∃ f, f < p.nbSinks ∧ s.remCapa.getD f 0 > 0) :
+    bestSinkC p s.sendCost src = .ok (bestSink p s.sendCost src) := by
+  have tr := hg.tree hfree
+  apply bestSinkFromC_ok p s.sendCost src p.nbSinks ?_ p.nbSinks 0 0 intMax (by omega)
+  intro i hi
+  have h1 := tr.pot.nn i hi
+  have h2 := tr.le i hi
+  have h3 := hnn i src hi hsrc
+  have h4 := cost_le_Cmax hcb i src hi hsrc
+  unfold Wmax at h2
+  unfold Cmax at h4
+  omega
+
+lemma sendSourceLoopC_total (p : Problem) (hcb : CostBound p) (hcap : ∀ i, i < p.nbSinks → 0 < p.capacity i)
+    (hnn : ∀ i j, i < p.nbSinks → j < p.nbSources → 0 ≤ p.cost i j)
+    (hcapQ : ∀ i, i < p.nbSinks → p.capacity i ≤ Qmax)
+    (src : Nat) (hsrc : src < p.nbSources) :
+    ∀ (fuel : Nat) (s : St) (rem : Int) (sent : Nat → Int),
+      Good p s sent → 0 ≤ rem → rem ≤ fuel → rem ≤ Qmax → rem ≤ sumTo p.nbSinks (fun i => s.remCapa.getD i 0) →
+      ∃ s', sendSourceLoop p src fuel s rem = .ok s' ∧ sendSourceLoopC p src fuel s rem = .ok s' ∧
+        Good p s' (fun j => sent j + (if j = src then rem else 0)) ∧
+        sumTo p.nbSinks (fun i => s'.remCapa.getD i 0) = sumTo p.nbSinks (fun i => s.remCapa.getD i 0) - rem := by
+  have hQ : Qmax = 2305843009213693952 := rfl
+  intro fuel
+  induction fuel with
+  | zero =>
+    intro s rem sent hg h0 hf _ _
+    have : rem = 0 := by omega
+    subst this
+    refine ⟨s, by simp [sendSourceLoop], by simp [sendSourceLoopC], ?_, by omega⟩
+    have e : (fun j => sent j + (if j = src then (0 : Int) else 0)) = sent := by funext j; simp
+    rw [e]; exact hg
+  | succ fuel ih =>
+    intro s rem sent hg h0 hf hrQ hb
+    unfold sendSourceLoop sendSourceLoopC
+    by_cases hpos : rem > 0
+    · rw [if_pos hpos, if_pos hpos]
+      have hfree : ∃ f, f < p.nbSinks ∧ s.remCapa.getD f 0 > 0 := by
+        obtain ⟨f, hf, hp⟩ := sumTo_pos_exists p.nbSinks (fun i => s.remCapa.getD i 0) (by omega)
+        exact ⟨f, hf, hp⟩
+      obtain ⟨s1, m, hok, hokC, hg1, hm0, hmq, hbud⟩ :=
+        sendSource3C_total p hcb hcap hnn hcapQ s sent src rem hg hsrc hpos hrQ hfree
+      rw [hok, bestSinkC_good p hcb hnn s sent hg src hsrc hfree]
+      simp only []
+      rw [hokC]
+      simp only []
+      have hm' : m > 0 := hm0
+      rw [if_pos hm', if_pos hm']
+      have hfit : fitsInt64 (rem - m) := by unfold fitsInt64; omega
+      simp only [subI64, chk64_ok hfit]
+      obtain ⟨s', hok', hokC', hg', hbud'⟩ :=
+        ih s1 (rem - m) _ hg1 (by omega) (by push_cast at hf ⊢; omega) (by omega) (by omega)
+      refine ⟨s', hok', hokC', ?_, by omega⟩
+      have e : (fun j => sent j + (if j = src then m else 0) + (if j = src then rem - m else 0))
+          = (fun j => sent j + (if j = src then rem else 0)) := by
+        funext j; split <;> omega
+      rw [← e]; exact hg'
+    · rw [if_neg hpos, if_neg hpos]
+      have : rem = 0 := by omega
+      subst this
+      refine ⟨s, rfl, rfl, ?_, by omega⟩
+      have e : (fun j => sent j + (if j = src then (0 : Int) else 0)) = sent := by funext j; simp
+      rw [e]; exact hg
+
+lemma runSourcesC_total (p : Problem) (hcb : CostBound p) (hcap : ∀ i, i < p.nbSinks → 0 < p.capacity i)
+    (hnn : ∀ i j, i < p.nbSinks → j < p.nbSources → 0 ≤ p.cost i j)
+    (hcapQ : ∀ i, i < p.nbSinks → p.capacity i ≤ Qmax)
+    (hdem : ∀ j, 0 ≤ p.demand j) (hdemQ : ∀ j, p.demand j ≤ Qmax) :
+    ∀ (L : List Nat) (s : St) (sent : Nat → Int),
+      Good p s sent → (∀ j, j ∈ L → j < p.nbSources) →
+      (L.map p.demand).sum ≤ sumTo p.nbSinks (fun i => s.remCapa.getD i 0) →
+      ∃ s', runSources p L s = .ok s' ∧ runSourcesC p L s = .ok s' ∧
+        Good p s' (fun j => sent j + (L.count j : Int) * p.demand j) := by
+  intro L
+  induction L with
+  | nil =>
+    intro s sent hg _ _
+    refine ⟨s, rfl, rfl, ?_⟩
+    have e : (fun j => sent j + (([] : List Nat).count j : Int) * p.demand j) = sent := by funext j; simp
+    rw [e]; exact hg
+  | cons a L ih =>
+    intro s sent hg hL hb
+    simp only [List.map_cons, List.sum_cons] at hb
+    have hLnn : 0 ≤ (L.map p.demand).sum := by
+      clear hb ih hL
+      induction L with
+      | nil => simp
+      | cons b L ih => simp only [List.map_cons, List.sum_cons]; have := hdem b; omega
+    obtain ⟨s1, hok1, hokC1, hg1, hbud1⟩ := sendSourceLoopC_total p hcb hcap hnn hcapQ a (hL a (by simp))
+      (p.demand a).toNat s (p.demand a) sent hg (hdem a) (by rw [Int.toNat_of_nonneg (hdem a)]) (hdemQ a) (by omega)
+    obtain ⟨s', hok', hokC', hg'⟩ := ih s1 _ hg1 (fun j hj => hL j (by simp [hj])) (by omega)
+    refine ⟨s', ?_, ?_, ?_⟩
+    · unfold runSources sendSource
+      rw [hok1]
+      exact hok'
+    · unfold runSourcesC sendSourceC
+      rw [hokC1]
+      exact hokC'
+    · have e : (fun j => sent j + (if j = a then p.demand a else 0) + (L.count j : Int) * p.demand j)
+          = (fun j => sent j + ((a :: L).count j : Int) * p.demand j) := by
+        funext j
+        rw [List.count_cons]
+        by_cases e : j = a
+        · subst e; simp; ring
+        · have e' : ¬ a = j := fun hh => e hh.symm
+          simp [e, e']
+      rw [← e]; exact hg'
+
+/-! ### `run`, `solve` -/
+
+/-- the C07 domain of the general transportation solver: positive capacities and demands (`check()`), demand fits in
+capacity, the stored costs are non-negative with `3·cost < INT_MAX` (C13's `costBoundOk`; the
+fixed-point scaling of `costsFromIntegers` delivers `[0, 2^29]`), totals at most `2^61` -/
+structure RunDom (p : Problem) : Prop where
+  capPos : ∀ i, i < p.nbSinks → 0 < p.capacity i
+  demPos : ∀ j, j < p.nbSources → 0 < p.demand j
+  bal : p.totalDemand ≤ p.totalCapacity
+  cb : CostBound p
+  cnn : ∀ i j, i < p.nbSinks → j < p.nbSources → 0 ≤ p.cost i j
+  capQ : p.totalCapacity ≤ Qmax
+
+lemma getD_le_sum (l : List Int) (h : ∀ i, i < l.length → 0 < l.getD i 0) (i : Nat) : l.getD i 0 ≤ max l.sum 0 := by
+  by_cases hi : i < l.length
+  · have := (le_sumTo (fun i => l.getD i 0) l.length i (fun k hk => le_of_lt (h k hk)) hi).1
+    rw [sumTo_list] at this
+    omega
+  · have : l.getD i 0 = 0 := by simp [List.getD_eq_getElem?_getD, Nat.not_lt.mp hi]
+    omega
+
+theorem runC_total (p : Problem) (hd : RunDom p) :
+    ∃ s, run p = .ok s ∧ runC p = .ok s ∧ Good p s (fun j => if j < p.nbSources then p.demand j else 0) := by
+  have hQ : Qmax = 2305843009213693952 := rfl
+  have hcap := hd.capPos
+  have hdem := hd.demPos
+  have hc0 : ∀ i, 0 ≤ p.capacity i := getD_nonneg_of_pos _ hcap
+  have hd0 : ∀ j, 0 ≤ p.demand j := getD_nonneg_of_pos _ hdem
+  have hcapQ : ∀ i, i < p.nbSinks → p.capacity i ≤ Qmax := by
+    intro i _
+    have := getD_le_sum p.capacities hcap i
+    have := hd.capQ
+    unfold Problem.totalCapacity at this
+    unfold Problem.capacity
+    omega
+  have hdemQ : ∀ j, p.demand j ≤ Qmax := by
+    intro j
+    have := getD_le_sum p.demands hdem j
+    have h1 := hd.capQ
+    have h2 := hd.bal
+    unfold Problem.totalDemand at h2
+    unfold Problem.demand
+    omega
+  have hperm : (sortedSourcesByDemand p).Perm (List.range p.nbSources) := List.mergeSort_perm _ _
+  have hbud : ((sortedSourcesByDemand p).map p.demand).sum
+      ≤ sumTo p.nbSinks (fun i => (initSt p).remCapa.getD i 0) := by
+    rw [perm_sum_map p.demand hperm, sum_map_range]
+    have e1 : sumTo p.nbSources p.demand = p.totalDemand := sumTo_list p.demands
+    have e2 : sumTo p.nbSinks (fun i => (initSt p).remCapa.getD i 0) = p.totalCapacity := sumTo_list p.capacities
+    rw [e1, e2]; exact hd.bal
+  obtain ⟨s, hok, hokC, hg⟩ := runSourcesC_total p hd.cb hcap hd.cnn hcapQ hd0 hdemQ (sortedSourcesByDemand p) (initSt p)
+    (fun _ => 0) (initSt_good p hcap hc0) (fun j hj => by simpa using (hperm.mem_iff.mp hj)) hbud
+  refine ⟨s, hok, ?_, ?_⟩
+  · unfold runC
+    rw [if_pos]
+    · exact hokC
+    · rw [List.all_eq_true]
+      intro x hx
+      obtain ⟨i, hi, e⟩ := List.getElem_of_mem hx
+      have h1 := hdem i hi
+      have h2 := hdemQ i
+      have e' : p.demand i = x := by
+        unfold Problem.demand
+        rw [List.getD_eq_getElem?_getD, List.getElem?_eq_getElem hi, e]; rfl
+      rw [e'] at h2
+      unfold Problem.demand at h1
+      rw [List.getD_eq_getElem?_getD, List.getElem?_eq_getElem hi, e] at h1
+      simp only [Option.getD_some] at h1
+      simp only [decide_eq_true_eq]
+      unfold fitsInt64
+      omega
+  · have e : (fun j => (0 : Int) + ((sortedSourcesByDemand p).count j : Int) * p.demand j)
+        = (fun j => if j < p.nbSources then p.demand j else 0) := by
+      funext j
+      rw [count_sorted]
+      split <;> simp
+    rw [← e]; exact hg
+
+/-- **`solve()`, checked = unbounded** -/
+theorem solveC_eq (p : Problem) (hd : RunDom p) : ∃ q, solve p = .ok q ∧ solveC p = .ok q := by
+  obtain ⟨s, h1, h2, _⟩ := runC_total p hd
+  exact ⟨{ p with allocations := s.alloc }, by unfold solve; rw [h1], by unfold solveC; rw [h2]⟩
+
+
+/-! ### `increaseCapacity` -/
+
+lemma accC_ok (site : String) : ∀ (l : List Int) (acc : Int), (∀ x, x ∈ l → 0 ≤ x) → 0 ≤ acc →
+    acc + l.sum ≤ 9223372036854775807 → accC site l acc = .ok (acc + l.sum) := by
+  intro l
+  induction l with
+  | nil => intro acc _ _ _; simp [accC]
+  | cons x xs ih =>
+    intro acc hnn h0 hb
+    have hx := hnn x (by simp)
+    have hs : 0 ≤ xs.sum := by
+      clear ih hb
+      induction xs with
+      | nil => simp
+      | cons y ys ih2 =>
+        simp only [List.sum_cons]
+        have := hnn y (by simp)
+        have := ih2 (fun z hz => hnn z (by
+          rcases List.mem_cons.mp hz with e | e
+          · simp [e]
+          · simp [e]))
+        omega
+    simp only [List.sum_cons] at hb
+    have hfit : fitsInt64 (acc + x) := by unfold fitsInt64; omega
+    unfold accC
+    simp only [addI64, chk64_ok hfit]
+    rw [ih (acc + x) (fun z hz => hnn z (by simp [hz])) (by omega) (by omega)]
+    simp only [List.sum_cons]
+    congr 1
+    omega
+
+lemma incCapsFit_ok (added rest : Int) (ha0 : 0 ≤ added) (haQ : added ≤ Qmax) :
+    ∀ (cs : List Int) (i : Nat), (∀ c, c ∈ cs → 0 ≤ c ∧ c ≤ Qmax) → incCapsFit added rest i cs = true := by
+  have hQ : Qmax = 2305843009213693952 := rfl
+  intro cs
+  induction cs with
+  | nil => intro i _; rfl
+  | cons c cs ih =>
+    intro i h
+    have hc := h c (by simp)
+    unfold incCapsFit
+    have f1 : fitsInt64 (c + added) := by unfold fitsInt64; omega
+    have f2 : fitsInt64 (c + added + 1) := by unfold fitsInt64; omega
+    simp [f1, f2, ih (i + 1) (fun z hz => h z (by simp [hz]))]
+
+lemma mem_le_sum_of_pos (l : List Int) (h : ∀ i, i < l.length → 0 < l.getD i 0) (x : Int) (hx : x ∈ l) :
+    0 ≤ x ∧ x ≤ max l.sum 0 := by
+  obtain ⟨i, hi, e⟩ := List.getElem_of_mem hx
+  have e' : l.getD i 0 = x := by
+    rw [List.getD_eq_getElem?_getD, List.getElem?_eq_getElem hi, e]; rfl
+  have h1 := h i hi
+  have h2 := getD_le_sum l h i
+  omega
+
+/-- domain of the whole sequence `increaseCapacity(); solve(); toAssignment()` as `DensityLegalizer::reoptimize`
+runs it: the problem passes `check()`, there is a sink, the stored costs are non-negative with
+`3·cost < INT_MAX`, total demand and total capacity are at most `2^61` -/
+structure AssignDom (p : Problem) : Prop where
+  chk : p.check = true
+  sinks : 0 < p.nbSinks
+  cb : CostBound p
+  cnn : ∀ i j, i < p.nbSinks → j < p.nbSources → 0 ≤ p.cost i j
+  capQ : p.totalCapacity ≤ Qmax
+  demQ : p.totalDemand ≤ Qmax
+
+theorem increaseCapacityC_eq (asr : Bool) (p : Problem) (hd : AssignDom p) :
+    increaseCapacityC asr p = .ok p.increaseCapacity := by
+  have hQ : Qmax = 2305843009213693952 := rfl
+  obtain ⟨hcap, hdem⟩ := check_facts p hd.chk
+  have hdnn : ∀ x, x ∈ p.demands → 0 ≤ x := fun x hx => (mem_le_sum_of_pos p.demands hdem x hx).1
+  have hcnn : ∀ x, x ∈ p.capacities → 0 ≤ x := fun x hx => (mem_le_sum_of_pos p.capacities hcap x hx).1
+  have hdQ := hd.demQ
+  have hcQ := hd.capQ
+  unfold Problem.totalDemand at hdQ
+  unfold Problem.totalCapacity at hcQ
+  have htd0 : 0 ≤ p.demands.sum := by
+    have := (le_sumTo (fun i => p.demands.getD i 0) p.demands.length 0 (fun k hk => le_of_lt (hdem k hk)))
+    by_cases h0 : p.demands.length = 0
+    · have : p.demands = [] := List.eq_nil_of_length_eq_zero h0
+      rw [this]; simp
+    · have := (this (by omega)).2
+      rw [sumTo_list] at this
+      exact this
+  have htc0 : 0 ≤ p.capacities.sum := by
+    have := (le_sumTo (fun i => p.capacities.getD i 0) p.capacities.length 0 (fun k hk => le_of_lt (hcap k hk)))
+    have hn := hd.sinks
+    unfold Problem.nbSinks at hn
+    have := (this (by omega)).2
+    rw [sumTo_list] at this
+    exact this
+  unfold increaseCapacityC
+  rw [accC_ok _ p.demands 0 hdnn (by omega) (by omega), accC_ok _ p.capacities 0 hcnn (by omega) (by omega)]
+  simp only [Int.zero_add]
+  have f1 : fitsInt64 (p.demands.sum - p.capacities.sum) := by unfold fitsInt64; omega
+  simp only [subI64, chk64_ok f1]
+  have hmiss : p.missing = p.demands.sum - p.capacities.sum := rfl
+  unfold Problem.increaseCapacity
+  rw [hmiss]
+  by_cases hle : p.demands.sum - p.capacities.sum ≤ 0
+  · rw [if_pos hle, if_pos hle]
+  · rw [if_neg hle, if_neg hle]
+    have hnpos : (0 : Int) < (p.nbSinks : Int) := by have := hd.sinks; omega
+    have hne : ¬ ((p.nbSinks : Int) = 0) := by omega
+    have hm0 : 0 ≤ p.demands.sum - p.capacities.sum := by omega
+    have hadd : p.added = (p.demands.sum - p.capacities.sum) / (p.nbSinks : Int) := by
+      unfold Problem.added
+      rw [hmiss, Int.tdiv_eq_ediv_of_nonneg hm0]
+    have ha0 : 0 ≤ (p.demands.sum - p.capacities.sum) / (p.nbSinks : Int) := Int.ediv_nonneg hm0 (le_of_lt hnpos)
+    have hale : (p.demands.sum - p.capacities.sum) / (p.nbSinks : Int) ≤ p.demands.sum - p.capacities.sum :=
+      Int.ediv_le_self _ hm0
+    have hdm := Int.ediv_mul_add_emod (p.demands.sum - p.capacities.sum) (p.nbSinks : Int)
+    have hr0 := Int.emod_nonneg (p.demands.sum - p.capacities.sum) hne
+    have hr1 := Int.emod_lt_of_pos (p.demands.sum - p.capacities.sum) hnpos
+    have hd0 : 0 ≤ (p.demands.sum - p.capacities.sum) / (p.nbSinks : Int) * (p.nbSinks : Int) :=
+      Int.mul_nonneg ha0 (le_of_lt hnpos)
+    have f2 : fitsInt64 ((p.demands.sum - p.capacities.sum) / (p.nbSinks : Int)) := by
+      unfold fitsInt64; omega
+    have f3 : fitsInt64 ((p.demands.sum - p.capacities.sum) / (p.nbSinks : Int) * (p.nbSinks : Int)) := by
+      unfold fitsInt64; omega
+    have f4 : fitsInt64 ((p.demands.sum - p.capacities.sum) -
+        (p.demands.sum - p.capacities.sum) / (p.nbSinks : Int) * (p.nbSinks : Int)) := by
+      unfold fitsInt64; omega
+    simp only [divI64, if_neg hne, chk64_ok f2, Int.tdiv_eq_ediv_of_nonneg hm0, mulI64, chk64_ok f3, chk64_ok f4]
+    have hasrt : (decide (0 ≤ (p.demands.sum - p.capacities.sum) -
+          (p.demands.sum - p.capacities.sum) / (p.nbSinks : Int) * (p.nbSinks : Int)) &&
+        decide ((p.demands.sum - p.capacities.sum) -
+          (p.demands.sum - p.capacities.sum) / (p.nbSinks : Int) * (p.nbSinks : Int) < (p.nbSinks : Int))) = true := by
+      rw [Bool.and_eq_true, decide_eq_true_eq, decide_eq_true_eq]
+      omega
+    rw [assertC_true asr _ hasrt]
+    simp only []
+    rw [incCapsFit_ok _ _ ha0 (by omega) p.capacities 0
+      (fun c hc => by have := mem_le_sum_of_pos p.capacities hcap c hc; omega), if_pos rfl, hadd]
+
+/-- the domain carries over to the problem with increased capacities -/
+theorem runDom_increaseCapacity (p : Problem) (hd : AssignDom p) : RunDom p.increaseCapacity := by
+  obtain ⟨hcap, hdem⟩ := check_facts p hd.chk
+  obtain ⟨hbal, hmono, hns, hdems, hcosts, _, htot⟩ := C13.increaseCapacity_covers p hd.sinks
+  have hsrc : p.increaseCapacity.nbSources = p.nbSources := by unfold Problem.nbSources; rw [hdems]
+  have hcost : ∀ i j, p.increaseCapacity.cost i j = p.cost i j := by
+    intro i j; unfold Problem.cost; rw [hcosts]
+  refine ⟨fun i hi => ?_, fun j hj => ?_, hbal, fun i j hi hj => ?_, fun i j hi hj => ?_, ?_⟩
+  · have := hcap i (by omega)
+    have := hmono i
+    omega
+  · have e : p.increaseCapacity.demand j = p.demand j := by unfold Problem.demand; rw [hdems]
+    rw [e]; exact hdem j (by omega)
+  · rw [hcost]; exact hd.cb i j (by omega) (by omega)
+  · rw [hcost]; exact hd.cnn i j (by omega) (by omega)
+  · by_cases h : p.totalCapacity < p.totalDemand
+    · rw [htot h]; exact hd.demQ
+    · have e : p.increaseCapacity = p := by
+        unfold Problem.increaseCapacity
+        rw [if_pos]
+        unfold Problem.missing
+        omega
+      rw [e]; exact hd.capQ
+
+/-- **`increaseCapacity(); solve(); toAssignment()`: checked = unbounded, no fault** -/
+theorem assignC_eq (asr : Bool) (p : Problem) (hd : AssignDom p) :
+    ∃ a, assign p = .ok a ∧ assignC asr p = .ok a := by
+  obtain ⟨q, h1, h2⟩ := solveC_eq p.increaseCapacity (runDom_increaseCapacity p hd)
+  refine ⟨q.toAssignment, ?_, ?_⟩
+  · unfold assign; rw [h1]
+  · unfold assignC; rw [increaseCapacityC_eq asr p hd]; simp only []; rw [h2]
 
 end ColoVerif.Transp
